@@ -711,6 +711,14 @@ impl Interface {
 
         let mut result = PollResult::None;
         for item in sockets.items_mut() {
+            // A datagram that is still being sent in fragments owns the fragmentation
+            // buffer: starting another one now would overwrite it and lose the
+            // fragments that were not transmitted yet. Let it drain first.
+            #[cfg(feature = "_proto-fragmentation")]
+            if !self.fragmenter.finished() {
+                break;
+            }
+
             if !item
                 .meta
                 .egress_permitted(self.inner.now, |ip_addr| self.inner.has_neighbor(&ip_addr))
@@ -1294,6 +1302,13 @@ impl InterfaceInner {
                             net_debug!(
                                 "Fragmentation buffer is too small, at least {} needed. Dropping",
                                 total_ip_len
+                            );
+                            return Ok(());
+                        }
+
+                        if !frag.finished() {
+                            net_debug!(
+                                "Fragmentation buffer is busy with another packet. Dropping"
                             );
                             return Ok(());
                         }
